@@ -18,18 +18,27 @@ def dupQuery : LS := ⟨2, [1, 2, 3, 4611686018427387905, 4611686018427387906, 4
 def dupA : Sig LS := ⟨7, 1, ⟨2, [1, 2], none⟩⟩
 def dupB : Sig LS := ⟨7, 2, ⟨4, [1, 2], none⟩⟩
 
-/-- Jaccard against the query: 2/6 at scaled 2, 2/3 at scaled 4.  Which one `search` reports for md5 7
-depends on the order of the collections. -/
+/-- Jaccard against the query: 2/6 at scaled 2, 2/3 at scaled 4.  Regression for finding C08.1 (fixed
+upstream): when `search` de-duplicated on md5 alone it reported ONE row for md5 7, with 2/6 for the collection
+order A, B and with 2/3 for B, A or a single collection.  With the key `(md5, scaled, num)` every organisation
+reports both rows. -/
 def dupCheck : Bool :=
   match searchDatabases lsOps .jaccard [[dupA], [dupB]] dupQuery fzero false,
         searchDatabases lsOps .jaccard [[dupB], [dupA]] dupQuery fzero false,
         searchDatabases lsOps .jaccard [[dupA, dupB]] dupQuery fzero false with
   | .ok r1, .ok r2, .ok r3 =>
-    decide (r1.map rowKey = [(7, F64.divNat 2 6)]) && decide (r2.map rowKey = [(7, F64.divNat 2 3)]) &&
-    decide (r3.map rowKey = [(7, F64.divNat 2 3)])
+    decide (r1.map rowKey = [(7, 4, F64.divNat 2 3), (7, 2, F64.divNat 2 6)]) &&
+    decide (r2.map rowKey = [(7, 4, F64.divNat 2 3), (7, 2, F64.divNat 2 6)]) &&
+    decide (r3.map rowKey = [(7, 4, F64.divNat 2 3), (7, 2, F64.divNat 2 6)])
   | _, _, _ => false
 
 theorem dupCheck_true : dupCheck = true := by decide +kernel
+
+/-- the two stored copies satisfy `MD5OK` (same md5, same hashes) although their scores differ -/
+theorem dup_md5ok : MD5OK [dupA, dupB] := by
+  intro d hd d' hd' _
+  simp only [List.mem_cons, List.mem_nil_iff, or_false] at hd hd'
+  rcases hd with rfl | rfl <;> rcases hd' with rfl | rfl <;> rfl
 
 /-! ### D6 makes the gather modes differ: query at scaled 2, database at scaled 4, `threshold_bp = 12` -/
 
